@@ -3,7 +3,9 @@ package props
 
 import (
 	"fmt"
+	"os"
 	"sort"
+	"strconv"
 	"sync"
 	"time"
 
@@ -21,8 +23,12 @@ func Tiered(tier string) core.DischargeOpts {
 	if tier == "thorough" {
 		return core.DischargeOpts{Timeout: 60 * time.Second, TwoUnsat: true}
 	}
-	return core.DischargeOpts{Timeout: 10 * time.Second}
+	return core.DischargeOpts{Timeout: QuickTimeout}
 }
+
+// QuickTimeout is the per-stage solver timeout of the quick tier; a driver whose obligations are few but large may
+// raise it (one property per process).
+var QuickTimeout = 10 * time.Second
 
 // job: one function to verify against a spec.
 type Job struct {
@@ -72,7 +78,16 @@ func RunJobs(w *core.World, rep *core.Report, jobs []Job) {
 	}
 	opt := Tiered(rep.Tier)
 	opt.Seed = rep.Seed
-	rep.Outcomes = append(rep.Outcomes, core.Discharge(obls, opt)...)
+	ocs := core.Discharge(obls, opt)
+	if th := os.Getenv("VERIF_SLOW"); th != "" {
+		lim, _ := strconv.ParseFloat(th, 64)
+		for _, o := range ocs {
+			if o.Seconds >= lim {
+				fmt.Fprintf(os.Stderr, "SLOW %.1fs %s [%s] paths=%d size=%d %s\n", o.Seconds, o.Name, o.Backend, o.Members, o.Size, o.Status)
+			}
+		}
+	}
+	rep.Outcomes = append(rep.Outcomes, ocs...)
 	for k := range trusted {
 		rep.AddUnique(&rep.Trusted, "model of "+k)
 	}
